@@ -35,3 +35,9 @@ claim("C03", "property-based testing: generated reaction lists, stoichiometry by
       "(5k quick / 60k thorough): update arrays vs counted stoichiometry by name; interface and safe-interface "
       "derivative vs sum (S+S_d) x own rate at sampled states; missing parameter values must make construction fail.",
       _TB, "DESIGN.md section 4 C03")
+
+claim("C07", "property-based testing: exhaustive enumeration of the option lattice x generated models, result-shape oracle",
+      "All 360 option combinations (432 in the thorough tier with a dividing volume object) are enumerated for every "
+      "generated model and grid (24 models quick / 300 thorough); outcomes are classified as explicit option error vs "
+      "failure from inside, and returned results are checked for row count, exact time axis, column order, volume column "
+      "and first row = initial condition with assignment rules applied.", _TB, "DESIGN.md section 4 C07")
